@@ -786,11 +786,26 @@ def r5_dispatch(ctx):
     arms = list(A.branch_chain(trys[0].body, lambda e: norm(e) in ('data_type', 'data_type[0]')))
     if not arms:
         raise AnalysisError('IsValidDataType: dispatch on data_type not found')
-    else_arm = [a for a in arms if a[0] is None]
-    ok = bool(else_arm) and any(isinstance(s, ast.Raise) or (isinstance(s, ast.Return) and A.const(s.value) is False)
-                                for s in else_arm[0][1])
+    from ..absint import explore as _ex
+    g0 = ctx.cfg(fn)
+
+    def _verdicts(dt):
+        funcs = {'match_re': lambda *a_: True, 'not_match_re': lambda *a_: False, 'is_valid_date': lambda *a_: True, 'is_valid_time': lambda *a_: True,
+                 'isinstance': lambda *a_: True}
+        outs = []
+
+        def on_node(nd, env):
+            if nd.kind == 'return':
+                try:
+                    outs.append(bool(A.ev(nd.ast.value, env, funcs)) if nd.ast.value is not None else None)
+                except (A.NotClosed, TypeError):
+                    outs.append('?')
+        _ex(g0, {'data_type': dt, 'str_val': 'X', 'string_types': str, 'charset': 'B', 'icvn': '00401'}, funcs=funcs, on_node=on_node)
+        return set(outs)
+    bad_u = [dt for dt in ('ZZ', 'X9', 'D7', 'r') if _verdicts(dt) != {False}]
+    ok = not bad_u and _verdicts('B') == {True}
     yield Ob('validation:IsValidDataType unknown type is rejected', ok, ctx.floc(fn),
-             '' if ok else 'the dispatch chain has no rejecting else')
+             '' if ok else ('a value of the unknown type %s is accepted' % bad_u[0] if bad_u else 'binary (B) values are rejected'))
     labels = {a[0] for a in arms if a[0] not in (None, '?')}
     need = {'N', 'R', 'ID', 'AN', 'RD8', 'DT', 'D8', 'D6', 'TM'}
     ok = need <= labels
